@@ -452,6 +452,17 @@ class Escape:
                     if src and not guarded_truthy(fi.node, n.value.id, n):
                         out.add(self._item(fi, n, IDIOM_NONE_ATTR, '%s %s.%s on an element that %s can leave None' % (
                             fi.loc(n), n.value.id, n.attr, src), 'none-attr'))
+            elif isinstance(n, ast.Attribute) and isinstance(n.ctx, ast.Store):
+                # property stores are calls of the setter (`request.url = text` parses the text)
+                for t in self.res.type_of(fi, n.value):
+                    m = None
+                    for c_ in self.repo.mro(t):
+                        if n.attr in getattr(c_, 'setters', {}):
+                            m = c_.setters[n.attr]
+                            break
+                    if m is not None:
+                        self.call_edges.setdefault(fi.qual, set()).add(m.qual)
+                        out |= self._via(fi, n, self._esc(m))
             elif isinstance(n, ast.Subscript) and isinstance(n.ctx, ast.Load) and self.count_idioms:
                 it = self._subscript(fi, n)
                 if it is not None:
